@@ -472,6 +472,12 @@ def apply_op(state, op):
             restored, _ = json_roundtrip(net, ChargingNetwork, op.get("via", "string"))
             state.net = restored
             state.json += 1
+        elif kind == "scribble":
+            # the caller edits, in place, the table constraints_as_df() handed out; the network
+            # keeps its own rows (the check after this step compares them with the model)
+            from ..scenario import scribble_on_table
+
+            scribble_on_table(net)
         else:  # pragma: no cover
             raise ValueError(op)
     check(state)
@@ -507,6 +513,8 @@ def labels_of(state, log):
         labs.append("add_aborted_by_warning_as_error")
     if state.json:
         labs.append("json_roundtrip")
+    if any(o["op"] == "scribble" for o in log):
+        labs.append("handed_out_table_edited_in_place")
     if state.linear_queries:
         labs.append("linear_query")
     return labs
@@ -633,6 +641,12 @@ class ConstraintMachine(LoggedMachine):
     @rule(via=st.sampled_from(["string", "string", "path", "buffer"]))
     def json_roundtrip(self, via):
         self.do({"op": "json", "via": via})
+
+
+    @precondition(lambda self: len(self.state.model) >= 1)
+    @rule()
+    def scribble_on_handed_out_table(self):
+        self.do({"op": "scribble"})
 
 
 def subchecks(tier):
